@@ -23,7 +23,7 @@ pub struct Built {
 
 fn hostile_world(rng: &mut Rng) -> (World, &'static str) {
     let mut w = World::default();
-    let which = rng.usize(16);
+    let which = rng.usize(18);
     let label: &'static str;
     let text: String = match which {
         0 => {
@@ -180,6 +180,31 @@ fn hostile_world(rng: &mut Rng) -> (World, &'static str) {
                 "pragma circom 2.0.0;\nfunction f(n) {{ return n; }}\ntemplate T() {{\n  signal input a;\n  signal output b;\n  var x;\n  {st}\n}}\n"
             )
         }
+        15 => {
+            label = "many-reports";
+            // many definitions that each draw a parse-stage error, plus reports without a
+            // location (failing include is located; missing pragma and unreadable file are not)
+            let n = 21 + rng.usize(40);
+            let mut s = String::from("include \"nonexistent_a.circom\";\ninclude \"lib_without_pragma.circom\";\n");
+            for k in 0..n {
+                let body = match rng.usize(3) {
+                    0 => format!("signal output o; o <== NoSuchTemplate{k}()(a);"),
+                    1 => "var (p, q) = (1, 2, 3);".to_string(),
+                    _ => "signal output o; o <== a;".to_string(),
+                };
+                s.push_str(&format!("template T{k}() {{ signal input a; {body} }}\n"));
+            }
+            w.put("lib_without_pragma.circom", "template L() { signal input a; }\n");
+            s
+        }
+        16 => {
+            label = "directory-symlink-loop";
+            // a directory input that contains a symlink to an ancestor
+            w.put("src/adder.circom", "pragma circom 2.0.0;\ntemplate Adder() { signal input a; signal output b; b <== a + 1; }\n");
+            let (link, target) = *rng.pick(&[("src/parent", ".."), ("src/self", "."), ("src/up", "../src"), ("loop", ".")]);
+            w.symlinks.insert(link.to_string(), target.to_string());
+            "pragma circom 2.0.0;\ntemplate T() { signal input a; }\n".to_string()
+        }
         _ => {
             label = "include-oddities";
             let inc = *rng.pick(&["", ".", "..", "/", "main.circom", "./main.circom", "nonexistent.circom", "a\nb", "\\", "//", "/dev/null", "/etc/hostname"]);
@@ -222,6 +247,7 @@ pub fn build_case(seed: u64, i: usize, thorough: bool) -> Built {
     };
     let named: Vec<String> = match &project {
         Some(p) => p.named_paths(),
+        None if mode == "directory-symlink-loop" => vec![r_mode.pick(&[".", "src", "./src/"]).to_string()],
         None => vec!["main.circom".into()],
     };
     let mut mode = mode;
@@ -239,7 +265,8 @@ pub fn build_case(seed: u64, i: usize, thorough: bool) -> Built {
     } else if mode_pick >= 38 && mode_pick < 50 {
         let names: Vec<String> = world.files.keys().cloned().collect();
         let target = r_fault.pick(&names).clone();
-        let kinds: [(&str, &str, i32); 9] = [
+        let kinds: [(&str, &str, i32); 10] = [
+            ("vanish-after-realpath", "realpath", -2),
             ("enoent-at-realpath", "realpath", libc::ENOENT),
             ("enoent-at-open", "open", libc::ENOENT),
             ("eacces-at-open", "open", libc::EACCES),
